@@ -36,7 +36,7 @@ Section C.
   Definition body_in (ter_ok : bool) (S : list Vr) (body : list (symb Vr)) : bool :=
     forallb (fun X => match X with V B => mem B S | T _ => ter_ok end) body.
   Definition head_ok (G : cfg Vr) (ter_ok : bool) (S : list Vr) (A : Vr) : bool :=
-    existsb (fun p => eqb A (fst p) && body_in ter_ok S (snd p)) (g_prods G).
+    existsb (fun p => eqb A (fst p) &&& body_in ter_ok S (snd p)) (g_prods G).
 
   (* get_generating_symbols / get_nullable_symbols: the counter worklist of the code computes the least set closed
      under "some production has all its body symbols in the set"; modelled by saturation (unique result) *)
@@ -168,7 +168,7 @@ Section NF.
   (* to_normal_form: fast-path test, five-stage clean-up, recursion *)
   Definition fast_path_ok (G : cfg Vr) : bool :=
     (match nullable_vars G with [] => true | _ => false end) &&
-    Nat.eqb (length (unit_pairs G)) (length (g_vars G)) &&
+    negb (existsb is_unit (g_prods G)) &&
     Nat.eqb (length (generating_symbols G)) (length (g_vars G) + length (g_terms G)) &&
     Nat.eqb (length (reachable_symbols G)) (length (g_vars G) + length (g_terms G)).
   Definition cleanup (G : cfg Vr) : cfg Vr :=
@@ -204,7 +204,7 @@ Section CYK.
                let L := cyk_set f G (fst uv) in
                let R := cyk_set f G (snd uv) in
                flat_map (fun p => match snd p with
-                                  | [V B; V C] => if mem B L && mem C R then [fst p] else []
+                                  | [V B; V C] => if mem B L &&& mem C R then [fst p] else []
                                   | _ => [] end) (g_prods G)) (splits w))
       end
     end.
